@@ -31,8 +31,10 @@ RULE = ('label sets of 7 small really-rendered documents x {HTML5, XHTML} (+ 2 f
         'every single-bit flip, every 2-bit flip in the stated window (quick: all bit pairs inside the first 13 '
         'bytes [PROTO, FRAME, first opcode] and inside every 2-byte window starting at an opcode boundary; '
         'thorough: additionally all bit pairs at byte distance <= 8 and first-13-bytes x whole-file pairs), a menu of 25 '
-        'foreign files; plus round-trip / cross-document / faulted-previous-file renders through the real call '
-        'sites, and a BFS over persist/restore/corrupt histories on one file with two renderer keys; a case is '
+        'foreign files; plus round-trip / cross-document (incl. neighbours whose job names extend or are contained in the '
+        'current one) / faulted-previous-file renders through the real call sites, document sequences with overlapping '
+        'and twice-defined label names through plasTeX.Compile.run (same directory, paux-dirs, output directory, two '
+        'renderers into one file), and a BFS over persist/restore/corrupt histories on one file with two renderer keys; a case is '
         'non-trivial when the file content presented to plasTeX differs from the intact saved file (fault cases) or '
         'the label set is non-empty (round trips); distinct = distinct (document, renderer, fault) / history; '
         'outcomes = distinct (reference reading of the faulted bytes, restored label count, re-save result)')
@@ -113,6 +115,13 @@ See \ref{sec:é x}.
 \section{Nolabel wqa}
 \end{document}
 ''',
+}
+# label names each source defines (own list, kept next to the sources)
+DOC_LABELS = {
+    'sec': ['sec:a', 'sub:b', 'sec:c'], 'sec2': ['sec:n', 'sec:a', 'sub:b'],
+    'eq': ['eq:one', 'eq:two', 'ea:1', 'ea:2'], 'float': ['fig:f', 'tab:t', 'fig:g'],
+    'mix': ['sec:a', 'eq:one', 'sub:b', 'fig:f', 'it:1'], 'uni': ['sec:é x', 'sub-1.2'],
+    'thm': ['thm:1', 'thm:2', 'it:1', 'it:2'], 'empty': [],
 }
 POOL = ['sec', 'eq', 'float', 'mix', 'uni', 'thm', 'empty']      # 'sec2' is the revision used by the BFS only
 PAIRS = ['empty+sec', 'sec+sec2']     # file saved by the first document, met by a run of the second (fault kinds only)
@@ -204,11 +213,17 @@ def _config(rname):
     return config
 
 
-def _capture(document):
-    """Label set as the statement describes it, read off the live rendered nodes (own rule, own attribute list)."""
+def _capture(document, names=None):
+    """Label set as the statement describes it, read off the live rendered nodes (own rule, own attribute list).
+    `names` = the label names the document source defines (known to the generator); the node of a name is the one
+    the document itself resolves \\ref{name} to (context.labels), NOT the library's to-be-saved set."""
     from plasTeX.DOM import Node
     out = {}
-    for label, node in list(document.context.persistentLabels.items()):
+    if names is None:
+        pairs = list(document.context.persistentLabels.items())
+    else:
+        pairs = [(n, document.context.labels[n]) for n in names if n in document.context.labels]
+    for label, node in pairs:
         a = {}
         for name in M.REF_ATTRS:
             v = getattr(node, name, None)
@@ -221,9 +236,10 @@ def _capture(document):
     return out
 
 
-def render(src, rname, jobname='job', pre=None):
+def render(src, rname, jobname='job', pre=None, labels=None):
     """Parse with plasTeX.Compile.parse (restores every other *.paux of the directory) and render with the
-    stock renderer in a scratch directory.  `pre` = {filename: bytes} placed there first.
+    stock renderer in a scratch directory.  `pre` = {filename: bytes | '<dir>'} placed there first;
+    `labels` = label names defined by `src`.
     -> dict(exc, paux, captured, files, pages, ctx_labels)"""
     import plasTeX.Compile
     from plasTeX.Logging import disableLogging
@@ -234,7 +250,10 @@ def render(src, rname, jobname='job', pre=None):
     os.chdir(wd)
     try:
         for name, data in (pre or {}).items():
-            _write(os.path.join(wd, name), data)
+            if data == '<dir>':
+                os.makedirs(os.path.join(wd, name))
+            else:
+                _write(os.path.join(wd, name), data)
         with open(jobname + '.tex', 'w', encoding='utf-8') as f:
             f.write(src)
         box = {}
@@ -244,13 +263,13 @@ def render(src, rname, jobname='job', pre=None):
                 tex = plasTeX.Compile.parse(jobname + '.tex', config)
                 disableLogging()
                 doc = tex.ownerDocument
-                res['ctx_labels'] = {k: _node_dump(n) for k, n in doc.context.labels.items()
-                                     if k not in doc.context.persistentLabels}
+                own = set(doc.context.persistentLabels) if labels is None else set(labels)
+                res['ctx_labels'] = {k: _node_dump(n) for k, n in doc.context.labels.items() if k not in own}
                 r = importlib.import_module('plasTeX.Renderers.' + rname).Renderer()
                 orig = r.cleanup
 
                 def cleanup(document, files, postProcess=None):
-                    box['captured'] = _capture(document)
+                    box['captured'] = _capture(document, labels)
                     return orig(document, files, postProcess=postProcess)
                 r.cleanup = cleanup
                 r.render(doc)
@@ -293,7 +312,7 @@ def saved(doc, rname):
     """Render pool document `doc` once per process with renderer `rname` (no other paux around)."""
     key = (doc, rname)
     if key not in _SAVED:
-        r = render(DOCS[doc], rname)
+        r = render(DOCS[doc], rname, labels=DOC_LABELS[doc])
         r.pop('pages', None)
         _SAVED[key] = r
     return _SAVED[key]
@@ -781,6 +800,8 @@ def _rt_checks(doc, rname):
         return [('render', True, 'rendering raised %s' % s['exc'], 'no exception', s['exc'])]
     if doc != 'empty' and not cap:
         return [('render', True, 'no label was captured from the rendered document', 'labels', cap)]
+    if set(cap) != set(DOC_LABELS[doc]):
+        return [('render', True, 'the document does not know every label its source defines', sorted(DOC_LABELS[doc]), sorted(cap))]
     P = M.ref_load(s['paux'])
     want = {rname: cap}
     prob = ''
@@ -862,7 +883,9 @@ def _xdoc_check(doc, rname, variant):
     for i, label in enumerate(cap):
         body.append('wqr%d \\ref{%s}.' % (i, label))
     src = '\\documentclass{article}\n\\begin{document}\n%s\n\\end{document}\n' % '\n'.join(body)
-    r = render(src, rname, jobname='docB', pre=pre)
+    pre_dir = {'dir.paux': '<dir>'} if variant == 'with_bad' else {}
+    pre.update(pre_dir)
+    r = render(src, rname, jobname='docB', pre=pre, labels=['own:z'])
     if r['exc']:
         return 'processing document B raised %s' % r['exc'], 'no exception', r['exc']
     wantv = {k: M.node_view(v) for k, v in cap.items()}
@@ -911,7 +934,7 @@ def _xnames_check(job, rname):
     for i, label in enumerate(cap):
         body.append('wqr%d \\ref{%s}.' % (i, label))
     src = '\\documentclass{article}\n\\begin{document}\n%s\n\\end{document}\n' % '\n'.join(body)
-    r = render(src, rname, jobname=job, pre=pre)
+    r = render(src, rname, jobname=job, pre=pre, labels=['own:z'])
     if r['exc']:
         return 'processing document %s raised %s' % (job, r['exc']), 'no exception', r['exc']
     wantv = {k: M.node_view(v) for k, v in cap.items()}
@@ -935,6 +958,192 @@ def _xnames_check(job, rname):
     B = M.ref_load(r['paux'])
     if not M.is_data(B) or not isinstance(B[1], dict) or set(B[1]) != {rname} or set(B[1][rname]) != {'own:z'}:
         return '%s.paux was not written with exactly the document\'s own labels' % job, {rname: ['own:z']}, repr(B)[:200]
+    return '', None, None
+
+
+# ---------------------------------------------------------------------------
+# sequences of documents with OVERLAPPING label names, through plasTeX.Compile.run
+# ---------------------------------------------------------------------------
+SEQ_A = r"""\documentclass{article}
+\begin{document}
+\section{Intro A wqa}\label{sec:intro}
+\subsection{Sub A wqb}
+\subsection{Summary A wqc}\label{sec:summary}
+\begin{equation}x=1\label{eq:main}\end{equation}
+Own wqo \ref{sec:intro} \ref{sec:summary} \ref{eq:main}.
+\end{document}
+"""
+SEQ_A_EXPECT = {'sec:intro': ('1', 'Intro A wqa'), 'sec:summary': ('1.2', 'Summary A wqc'), 'eq:main': ('1', None)}
+SEQ_B = r"""\documentclass{article}
+\begin{document}
+\section{First B wqd}\label{sec:b}
+\begin{equation}y=0\end{equation}
+\section{Second B wqe}
+\section{\emph{Summary} \textbf{B} wqf}\label{sec:summary}
+\begin{equation}y=2\label{eq:main}\end{equation}
+\section{Dup first wqg}\label{dup:x}
+\section{Dup last wqh}\label{dup:x}
+Own wqo \ref{sec:b} \ref{sec:summary} \ref{eq:main} \ref{dup:x}. Other wqp \ref{sec:intro}.
+\end{document}
+"""
+# number / plain title words the SOURCE gives every label of B; a name defined twice means its LAST definition
+SEQ_B_EXPECT = {'sec:b': ('1', 'First B wqd'), 'sec:summary': ('3', None), 'eq:main': ('2', None),
+                'dup:x': ('5', 'Dup last wqh')}
+SEQ_C = r"""\documentclass{article}
+\begin{document}
+\section{Own C wqi}\label{own:c}
+Refs wqq \ref{sec:b} \ref{sec:summary} \ref{eq:main} \ref{dup:x} \ref{own:c}.
+\end{document}
+"""
+SEQ_VARIANTS = ['samedir', 'pauxdirs', 'outdir', 'alone']     # 'alone': docB without docA around (only the twice-defined label)
+
+
+def compile_run(wd, jobname, src, rname, paux_dirs=(), outdir=None):
+    """plasTeX.Compile.run (the command-line path: parse with paux discovery, load_renderer, render) in directory wd.
+    -> dict(exc, paux, pages)"""
+    import io
+    import plasTeX.Compile
+    from plasTeX.Logging import disableLogging
+    vstate.reset()
+    res = {'exc': None, 'paux': None, 'pages': {}}
+    old = os.getcwd()
+    os.chdir(wd)
+    out_abs = os.path.join(wd, outdir.replace('$jobname', jobname)) if outdir else wd
+    try:
+        for dp, dn, fn in os.walk(wd):          # pages of an earlier document must not be mistaken for this one's
+            for f in fn:
+                if f.endswith('.html'):
+                    os.remove(os.path.join(dp, f))
+        with open(jobname + '.tex', 'w', encoding='utf-8') as f:
+            f.write(src)
+        config = _config(rname)
+        if paux_dirs:
+            config['general']['paux-dirs'] = list(paux_dirs)
+        if outdir:
+            config['files']['directory'] = outdir
+        try:
+            with core.time_limit(60.0), contextlib.redirect_stdout(io.StringIO()):
+                plasTeX.Compile.run(jobname + '.tex', config)
+        except BaseException as e:
+            if isinstance(e, KeyboardInterrupt):
+                raise
+            res['exc'] = '%s: %s' % (type(e).__name__, str(e)[:200])
+        finally:
+            disableLogging()
+        res['paux'] = _read(os.path.join(wd, jobname + '.paux'))
+        for dp, dn, fn in os.walk(out_abs):
+            for f in fn:
+                if f.endswith('.html'):
+                    with open(os.path.join(dp, f), encoding='utf-8', errors='replace') as fh:
+                        res['pages'][os.path.relpath(os.path.join(dp, f), out_abs)] = fh.read()
+    finally:
+        os.chdir(old)
+    return res
+
+
+def _anchors(pages):
+    out = set()
+    for page in pages.values():
+        for href, text in _A_RE.findall(page):
+            out.add((html.unescape(href), html.unescape(re.sub(r'<[^>]*>', '', text)).strip()))
+    return out
+
+
+def _own_saved_ok(who, r, rname, expect, extra_keys=()):
+    """The file a document saved holds, under the renderer key, exactly the labels its source defines, with the
+    number the source gives them, the title it gives them, and the target its own \\ref{} links to.
+    -> (problem, expected, observed, mapping)"""
+    if r['exc']:
+        return 'processing %s raised %s' % (who, r['exc']), 'no exception', r['exc'], None
+    P = M.ref_load(r['paux'])
+    if not M.is_data(P) or type(P[1]) is not dict or set(P[1]) != {rname} | set(extra_keys) or type(P[1].get(rname)) is not dict:
+        return '%s.paux is not a dict with the renderer key(s)' % who, sorted({rname} | set(extra_keys)), repr(P)[:300], None
+    got = P[1][rname]
+    if set(got) != set(expect):
+        return ('%s.paux does not hold exactly the labels %s defines (missing %s, unexpected %s)'
+                % (who, who, sorted(set(expect) - set(got)), sorted(set(got) - set(expect))), sorted(expect), sorted(got), None)
+    anchors = _anchors(r['pages'])
+    alltext = '\n'.join(r['pages'].values())
+    for label, (ref, title) in expect.items():
+        a = got[label]
+        if type(a) is not dict or a.get('ref') != ref or a.get('id') != label:
+            return ('%s.paux: label %s saved with number %r, the document gives it %r (last definition wins)'
+                    % (who, label, a.get('ref') if type(a) is dict else a, ref), {'ref': ref, 'id': label}, a, None)
+        if title is not None and a.get('title') != title:
+            return '%s.paux: title of %s' % (who, label), title, a.get('title'), None
+        if 'title' in a and str(a['title']) not in alltext:
+            return ('%s.paux: saved title of %s is not what the document rendered' % (who, label), 'a string of the output pages',
+                    a['title'], None)
+        if (str(a.get('url')), ref) not in anchors:
+            return ('%s.paux: saved target of %s is not where the document\'s own \\ref{%s} links to' % (who, label, label),
+                    sorted(x for x in anchors if x[1] == ref)[:5], [a.get('url'), ref], None)
+    return '', None, None, got
+
+
+def _seq_check(variant, rname):
+    """A, then B (same label names, other numbers/targets; one name defined twice) in A's directory, B again with
+    the other renderer, A again, then C seeing ONLY B's file: B's saved data is B's complete label set with B's
+    own values, and C resolves to them."""
+    o = _other(rname)
+    outdir = 'out-$jobname' if variant == 'outdir' else None
+    top = _mkdtemp()
+    try:
+        D = os.path.join(top, 'ab'); os.makedirs(D)
+        os.makedirs(os.path.join(D, 'dir.paux'))                 # "unreadable" neighbours
+        os.symlink(os.path.join(D, 'nowhere'), os.path.join(D, 'dangling.paux'))
+        alone = variant == 'alone'
+        if not alone:
+            ra = compile_run(D, 'docA', SEQ_A, rname, outdir=outdir)
+            prob, e, ob, A = _own_saved_ok('docA', ra, rname, SEQ_A_EXPECT)
+            if prob:
+                return 'step A: ' + prob, e, ob
+            a_bytes = ra['paux']
+        rb = compile_run(D, 'docB', SEQ_B, rname, outdir=outdir)
+        prob, e, ob, B = _own_saved_ok('docB', rb, rname, SEQ_B_EXPECT)
+        if prob:
+            return ('step B (alone): ' if alone else 'step B (after restoring docA.paux, which shares label names): ') + prob, e, ob
+        if not alone:
+            if _read(os.path.join(D, 'docA.paux')) != a_bytes:
+                return 'step B: processing docB modified docA.paux', None, None
+            want = (str(A['sec:intro']['url']), '1')
+            if want not in _anchors(rb['pages']):
+                return 'step B: \\ref{sec:intro} did not resolve to docA', list(want), sorted(x for x in _anchors(rb['pages']) if x[1] == '1')[:5]
+        rb2 = compile_run(D, 'docB', SEQ_B, o, outdir=outdir)
+        prob, e, ob, B2 = _own_saved_ok('docB', rb2, o, SEQ_B_EXPECT, extra_keys=[rname])
+        if prob:
+            return 'step B with the other renderer into the same file: ' + prob, e, ob
+        P = M.ref_load(rb2['paux'])
+        if not M.same(P[1][rname], B):
+            return 'step B with the other renderer changed the section of the first renderer', B, P[1][rname]
+        if not alone:
+            ra2 = compile_run(D, 'docA', SEQ_A, rname, outdir=outdir)
+            prob, e, ob, A2 = _own_saved_ok('docA', ra2, rname, SEQ_A_EXPECT)
+            if prob:
+                return 'step A again (docB.paux, which shares label names, now present): ' + prob, e, ob
+            if not M.same(A2, A):
+                return 'step A again: saved data changed', A, A2
+        # C sees only B's file
+        D3 = os.path.join(top, 'bonly'); os.makedirs(D3)
+        shutil.copy(os.path.join(D, 'docB.paux'), os.path.join(D3, 'docB.paux'))
+        if variant == 'pauxdirs':
+            D2 = os.path.join(top, 'c'); os.makedirs(D2)
+            rc = compile_run(D2, 'docC', SEQ_C, rname, paux_dirs=[D3, os.path.join(top, 'missing-dir')])
+        else:
+            D2 = D3
+            rc = compile_run(D2, 'docC', SEQ_C, rname, outdir=outdir)
+        prob, e, ob, C = _own_saved_ok('docC', rc, rname, {'own:c': ('1', 'Own C wqi')})
+        if prob:
+            return 'step C: ' + prob, e, ob
+        anchors = _anchors(rc['pages'])
+        for label, (ref, title) in SEQ_B_EXPECT.items():
+            want = (str(B[label]['url']), ref)
+            if want not in anchors:
+                return ('step C: \\ref{%s} does not link to docB\'s %s' % (label, label), list(want),
+                        sorted(x for x in anchors if x[0] == want[0] or x[1] == ref)[:5])
+        if _read(os.path.join(D3, 'docB.paux')) != rb2['paux']:
+            return 'step C: processing docC modified docB.paux', None, None
+    finally:
+        shutil.rmtree(top, ignore_errors=True)
     return '', None, None
 
 
@@ -975,7 +1184,7 @@ def _prev_check(doc, rname, name):
     -> (verdict, fids, problem, expected, observed)"""
     data = _prev_bytes(doc, rname, name)
     P = M.ref_load(data)
-    r = render(DOCS[doc], rname, pre={'job.paux': data})
+    r = render(DOCS[doc], rname, pre={'job.paux': data}, labels=DOC_LABELS[doc])
     cap = r['captured']
     if r['exc']:
         if M.has_junk_under(P, rname) and r['exc'].startswith('TypeError') and cap and r['paux'] == data:
@@ -1012,6 +1221,17 @@ def _real_block(block):
         rep.count('xdoc.' + variant)
         if prob:
             rep.violation({'kind': 'xdoc', 'doc': doc, 'rname': rname, 'variant': variant}, exp, obs, prob)
+    elif kind == 'seq':
+        _, variant, rname = block
+        prob, exp, obs = _seq_check(variant, rname)
+        rep.case(key=block, nontrivial=True, outcome=(block, prob))
+        rep.count('seq')
+        if prob:
+            rep.violation({'kind': 'seq', 'variant': variant, 'rname': rname}, exp, obs, prob)
+        else:
+            rep.sample({'case': {'kind': 'seq', 'variant': variant, 'rname': rname},
+                        'history': ['run docA', 'run docB (restores docA.paux; shares sec:summary, eq:main; dup:x twice)',
+                                    'run docB with the other renderer', 'run docA again', 'run docC seeing only docB.paux']})
     elif kind == 'xnames':
         _, job, rname = block
         prob, exp, obs = _xnames_check(job, rname)
@@ -1263,6 +1483,9 @@ def _judge_case(case):
     if kind == 'xdoc':
         prob, exp, obs = _xdoc_check(case['doc'], case['rname'], case['variant'])
         return {'verdict': 'violation' if prob else 'ok', 'fids': [], 'expected': exp, 'observed': obs, 'detail': prob}
+    if kind == 'seq':
+        prob, exp, obs = _seq_check(case['variant'], case['rname'])
+        return {'verdict': 'violation' if prob else 'ok', 'fids': [], 'expected': exp, 'observed': obs, 'detail': prob}
     if kind == 'xnames':
         prob, exp, obs = _xnames_check(case['job'], case['rname'])
         return {'verdict': 'violation' if prob else 'ok', 'fids': [], 'expected': exp, 'observed': obs, 'detail': prob}
@@ -1317,6 +1540,9 @@ def run(tier, seed, rep):
     for job in XNAME_JOBS:
         for r in RENDERERS:
             blocks.append(('xnames', job, r))
+    for v in SEQ_VARIANTS:
+        for r in RENDERERS:
+            blocks.append(('seq', v, r))
     ok = usable
     for d in docs + PAIRS:
         for r in RENDERERS:
@@ -1337,12 +1563,12 @@ def run(tier, seed, rep):
         'fault_space_sizes': sizes,
         'flip2_window': ('all bit pairs in bytes [0,%d) + all bit pairs inside [p,p+2) for every opcode position p' % HEAD)
         + ('' if quick else ' + all bit pairs at byte distance <= %d + bytes [0,%d) x whole file' % (DIST, HEAD)),
-        'prev_faults': PREV_FAULTS, 'xnames': {j: xname_others(j) for j in XNAME_JOBS}, 'bfs_ops': bfs_ops(tier), 'bfs_depth': depth,
+        'prev_faults': PREV_FAULTS, 'xnames': {j: xname_others(j) for j in XNAME_JOBS}, 'seq_variants': SEQ_VARIANTS, 'bfs_ops': bfs_ops(tier), 'bfs_depth': depth,
         'rlimit_as_headroom_bytes': AS_EXTRA, 'alarm_s': TL,
     }
     out = {'exhaustive': True, 'bounds': bounds, 'blocks': len(blocks),
            'transitions': rep.transitions, 'traces_validated_against_impl': rep.traces,
            'floors': {'evaluations': 50000, 'flip1.ref_loads': 1000, 'flip1.ref_garbage': 1000,
-                      'prefix.ref_garbage': 1000, 'rt.restore': 10, 'xdoc.clean': 10, 'xnames': 4, 'bfs.op_P': 50}}
+                      'prefix.ref_garbage': 1000, 'rt.restore': 10, 'xdoc.clean': 10, 'xnames': 4, 'seq': 8, 'bfs.op_P': 50}}
     out.update(bfs)
     return out
